@@ -13,6 +13,7 @@ import (
 	"go/constant"
 	"go/token"
 	"math/big"
+	"regexp"
 	"sort"
 	"strings"
 )
@@ -133,6 +134,7 @@ type vNil struct{}
 type vTuple struct{ vs []val }
 type vOpaque struct{ what string }
 type vVoid struct{}
+type vBits struct{ of string } // x.Bits(): the word slice of |x| (only its length is used)
 
 // ---- state (persistent: every update clones)
 
@@ -183,7 +185,21 @@ type frame struct {
 	results []typ // declared result types (for conversion of untyped constants)
 	locals  map[string]bool
 	captured map[string]bool // closure frames: names visible at closure creation
+	onPanic  func(e vErr, st *state) term // where a panic raised in this frame goes (nil = top level)
+	recovered val                         // deferred function frames: the value recover() returns
+	deferred  bool
 }
+
+// raise a panic with error value e in frame fr
+func (t *numTr) raise(fr *frame, e vErr, st *state) term {
+	if fr != nil && fr.onPanic != nil {
+		return fr.onPanic(e, st)
+	}
+	return tLeaf{".error ." + e.kind}
+}
+
+var goRuntimePanic = vErr{kind: "goPanic", gotype: "runtime.Error"}
+
 
 // ---- types
 
@@ -522,13 +538,16 @@ func (t *numTr) eval(e ast.Expr, st *state, fr *frame, k kont) term {
 		}
 		return t.eval(x.X, st, fr, func(a val, st *state) term {
 			return t.eval(x.Y, st, fr, func(b val, st *state) term {
-				return t.binary(x, x.Op, a, b, st, k)
+				return t.binary(x, x.Op, a, b, st, fr, k)
 			})
 		})
 	case *ast.CompositeLit:
 		return t.composite(x, st, fr, k)
 	case *ast.TypeAssertExpr:
 		return t.eval(x.X, st, fr, func(v val, st *state) term {
+			if _, ok := v.(vNil); ok {
+				return k(vTuple{[]val{vNil{}, vBool{"False"}}}, st)
+			}
 			if ev, ok := v.(vErr); ok {
 				if ev.gotype == t.errTypeString(fr.pkg, x.Type) {
 					return k(vTuple{[]val{v, vBool{"True"}}}, st)
@@ -694,7 +713,7 @@ func cmpWithConst(a, b string, op token.Token, c int64) (string, bool) {
 	return "", false
 }
 
-func (t *numTr) binary(n ast.Node, op token.Token, a, b val, st *state, k kont) term {
+func (t *numTr) binary(n ast.Node, op token.Token, a, b val, st *state, fr *frame, k kont) term {
 	// error / nil comparisons
 	if op == token.EQL || op == token.NEQ {
 		isNilA, isNilB := isNil(a), isNil(b)
@@ -818,7 +837,7 @@ func (t *numTr) binary(n ast.Node, op token.Token, a, b val, st *state, k kont) 
 		if x.k.signed && op == token.QUO {
 			e = x.k.wrap(e) // MinInt / -1 wraps in Go
 		}
-		return t.guard(st, "("+y.e+" = 0)", tLeaf{".error .goPanic"}, func(st *state) term {
+		return t.guard(st, "("+y.e+" = 0)", func(st *state) term { return t.raise(fr, goRuntimePanic, st) }, func(st *state) term {
 			return k(vInt{e: e, k: x.k, named: x.named}, st)
 		})
 	case token.AND:
@@ -837,7 +856,7 @@ func (t *numTr) binary(n ast.Node, op token.Token, a, b val, st *state, k kont) 
 			return k(vInt{e: fmt.Sprintf("(Go.shr %d %s %s)", x.k.bits, x.e, y.e), k: x.k, named: x.named}, st)
 		}
 		if y.k.signed {
-			return t.guard(st, "("+y.e+" < 0)", tLeaf{".error .goPanic"}, body)
+			return t.guard(st, "("+y.e+" < 0)", func(st *state) term { return t.raise(fr, goRuntimePanic, st) }, body)
 		}
 		return body(st)
 	}
@@ -862,14 +881,22 @@ func flipCmp(op token.Token) token.Token {
 func isNil(v val) bool { _, ok := v.(vNil); return ok }
 
 // guard emits `if cond then bad else rest`, unless the truth of cond is already known on this path
-func (t *numTr) guard(st *state, cond string, bad term, rest func(*state) term) term {
-	if truth, ok := st.facts[cond]; ok {
-		if truth {
-			return bad
+var litEqZero = regexp.MustCompile(`^\((\(?-?\d+\)?) = 0\)$`)
+
+func (t *numTr) guard(st *state, cond string, bad func(*state) term, rest func(*state) term) term {
+	if m := litEqZero.FindStringSubmatch(cond); m != nil { // literal divisor
+		if strings.Trim(m[1], "()-0") == "" {
+			return bad(st)
 		}
 		return rest(st)
 	}
-	return mkIf(cond, bad, rest(st.withFact(cond, false)))
+	if truth, ok := st.facts[cond]; ok {
+		if truth {
+			return bad(st)
+		}
+		return rest(st)
+	}
+	return mkIf(cond, bad(st.withFact(cond, true)), rest(st.withFact(cond, false)))
 }
 
 func (t *numTr) composite(x *ast.CompositeLit, st *state, fr *frame, k kont) term {
@@ -904,7 +931,13 @@ func (t *numTr) composite(x *ast.CompositeLit, st *state, fr *frame, k kont) ter
 		if !ok {
 			t.fail(el, "positional composite literal")
 		}
-		keys = append(keys, kv.Key.(*ast.Ident).Name)
+		key := kv.Key.(*ast.Ident).Name
+		if fv, ok := z.fields[key]; ok {
+			if _, isNil := fv.(vNil); isNil { // field of a non-numeric type (kind tags, types, …): not about values
+				continue
+			}
+		}
+		keys = append(keys, key)
 		exprs = append(exprs, kv.Value)
 	}
 	return t.evalList(exprs, st, fr, func(vs []val, st *state) term {
